@@ -386,3 +386,311 @@ def oracle_c07(case):
                                         "C07-block-jump-scope" if entered_param else None))
         prev = st
     return out
+
+
+# ------------------------------------------------------------------------------------ C09
+
+def _hook_passages_modify_hooks(story, names):
+    def walk(toks):
+        for t in toks:
+            ty = t.get("type")
+            if ty == "hook":
+                return True
+            if ty == "conditional" and any(walk(b.get("content", [])) for b in t.get("branches", [])):
+                return True
+            if ty == "for_loop" and walk(t.get("content", [])):
+                return True
+        return False
+    for n in names:
+        p = story["passages"].get(n, {})
+        if walk(p.get("execute", [])) or walk(p.get("content", [])):
+            return True
+    return False
+
+
+def _hook_passages_register(story, names):
+    def walk(toks):
+        for t in toks:
+            ty = t.get("type")
+            if ty == "hook" and t.get("action") == "add":
+                return True
+            if ty == "conditional" and any(walk(b.get("content", [])) for b in t.get("branches", [])):
+                return True
+            if ty == "for_loop" and walk(t.get("content", [])):
+                return True
+        return False
+    return any(walk(story["passages"].get(n, {}).get("execute", [])) or walk(story["passages"].get(n, {}).get("content", []))
+               for n in names)
+
+
+def oracle_c09(case):
+    real = case["real"]
+    if real.get("status") != "ok":
+        return []
+    story = case["story"]
+    out = []
+    prev = real["init"]
+    hpast, hfuture = [], []     # hook registrations at each restore point
+    for i, (op, step) in enumerate(zip(case["ops"], real["steps"])):
+        st, resp, name = step["state"], step["resp"], op["op"]
+        if name == "choose" and prev.get("out") and 0 <= op["i"] < len(prev["out"]["choices"]):
+            hpast.append(copy.deepcopy(prev["hooks"]))
+            hpast = hpast[-50:]
+            hfuture = []
+        elif name == "undo" and resp.get("ret") is True and hpast:
+            want = hpast.pop()
+            hfuture.append(copy.deepcopy(prev["hooks"]))
+            if st["hooks"] != want:
+                out.append(fail(i, f"after undo the hook registrations are {st['hooks']}, before the undone choice they were {want}"))
+        elif name == "redo" and resp.get("ret") is True and hfuture:
+            want = hfuture.pop()
+            hpast.append(copy.deepcopy(prev["hooks"]))
+            if st["hooks"] != want:
+                out.append(fail(i, f"after redo the hook registrations are {st['hooks']}, expected {want}"))
+        elif name in ("load", "fresh_load", "load_doc") and not is_raise(resp):
+            hpast, hfuture = [], []
+        before = prev["vars"].get("hlog")
+        after = st["vars"].get("hlog")
+        if not isinstance(before, list) or not isinstance(after, list):
+            prev = st
+            continue
+        if name == "choose" and "out" in resp:
+            if after[:len(before)] != before:
+                out.append(fail(i, "the hook log was rewritten during a choice"))
+            else:
+                ran = after[len(before):]
+                reg_after = [h for h in st["hooks"].get("turn_end", []) if h in story["passages"]]
+                reg_before = prev["hooks"].get("turn_end", [])
+                if len(set(ran)) != len(ran):
+                    out.append(fail(i, f"a hooked passage ran more than once in one turn: {ran}"))
+                involved = set(reg_after) | set(ran) | set(reg_before)
+                if not _hook_passages_register(story, involved):
+                    # hooked passages may unhook (themselves or others) but none registers: whoever is still
+                    # registered after the turn was registered when triggering started, so it ran, in order
+                    it = iter(ran)
+                    if not all(h in it for h in reg_after):
+                        out.append(fail(i, f"still-registered hooks {reg_after} are not a subsequence of those that ran {ran}"))
+                if not _hook_passages_modify_hooks(story, involved):
+                    # nobody changes registrations while hooks run: those registered after the turn's own
+                    # navigation are exactly those registered now
+                    if ran != reg_after:
+                        out.append(fail(i, f"hooked passages {reg_after} (in registration order) but {ran} ran"))
+                # hook text is appended after the turn's own text, in run order
+                content = resp["out"]["content"]
+                pos = -1
+                for h in ran:
+                    mark = f"[{h} {st['vars'].get('n_' + h)}]"
+                    p_has = any(t.get("type") == "text" and t.get("value", "").startswith(f"[{h} ")
+                                for t in story["passages"].get(h, {}).get("content", []))
+                    if p_has:
+                        q = content.find(mark, pos + 1)
+                        if q < 0:
+                            out.append(fail(i, f"text of hooked passage {h} is missing or out of order in the turn's output"))
+                            break
+                        pos = q
+        elif name == "choose" and is_raise(resp):
+            pass
+        elif name in ("undo", "redo", "load", "fresh_load", "load_doc"):
+            # restored / reloaded variables: nothing must have RUN — the per-hook counters agree with the log
+            for h, cnt in ((k[2:], v) for k, v in st["vars"].items() if k.startswith("n_H")):
+                if isinstance(cnt, int) and cnt != after.count(h) and not (st["cur"] or "").startswith("H"):
+                    # counters are bumped on every entry, the log too: they move together
+                    out.append(fail(i, f"hook {h}: counter {cnt} but {after.count(h)} log entries after {name}"))
+        else:
+            target_is_hook = name == "goto" and op.get("spec", "").startswith("H")
+            if after != before and not target_is_hook:
+                out.append(fail(i, f"hooks ran on {name}: log grew by {after[len(before):]}"))
+        prev = st
+    return out
+
+
+# ------------------------------------------------------------------------------------ C10
+
+def oracle_c10(case):
+    real = case["real"]
+    if real.get("status") != "ok":
+        return []
+    story = case["story"]
+    out = []
+    prev = real["init"]
+    exp_sec = 0
+    past, future = [], []      # expected section at each restore point (mirrors undo / redo)
+    for i, (op, step) in enumerate(zip(case["ops"], real["steps"])):
+        st, resp, name = step["state"], step["resp"], op["op"]
+        if name == "choose" and prev.get("out") and 0 <= op["i"] < len(prev["out"]["choices"]):
+            past.append(exp_sec)
+            past = past[-50:]
+            future = []
+        if name == "undo" and resp.get("ret") is True and past:
+            future.append(exp_sec)
+            exp_sec = past.pop()
+            prev = st
+            continue
+        if name == "redo" and resp.get("ret") is True and future:
+            past.append(exp_sec)
+            exp_sec = future.pop()
+            prev = st
+            continue
+        if name in ("load", "fresh_load", "load_doc") and not is_raise(resp):
+            past, future = [], []
+        if name == "goto" and "out" in resp:
+            exp_sec = 0
+        elif name == "choose" and "out" in resp:
+            if _is_join(prev, op):
+                ch = prev["out"]["choices"][op["i"]]
+                pid = prev["out"]["pid"]
+                # stays in the passage
+                if prev["cur"] != pid:
+                    # position and displayed passage disagree (left behind by an earlier failed navigation)
+                    out.append(fail(i, f"join choice shown for {pid} was applied to {prev['cur']}", "C10-position-cache-mismatch"))
+                    exp_sec = None
+                    prev = st
+                    continue
+                if resp["out"]["pid"] != pid or st["cur"] != prev["cur"]:
+                    out.append(fail(i, "a join choice left the passage"))
+                # only the chosen block ran, once
+                p = story["passages"].get(pid, {})
+                mine = None
+                for c in p.get("choices", []):
+                    if c.get("target") == "@join" and _plain_text(c["text"]) is not None and \
+                            c.get("section", 0) == ch["section"] and c.get("args", "") == ch["args"] and \
+                            (_plain_text(c["text"]) == ch["text"]) and c.get("condition") == ch["condition"]:
+                        for t in c.get("block_content", []):
+                            if t.get("type") == "python_statement" and t["code"].startswith("jc_"):
+                                mine = t["code"].split(" ")[0]
+                        break
+                jcs = {k for k in st["vars"] if k.startswith("jc_")}
+                same_text = sum(1 for c in p.get("choices", []) if c.get("target") == "@join" and
+                                c.get("section", 0) == ch["section"] and _plain_text(c["text"]) == ch["text"])
+                if mine is not None and same_text == 1:
+                    for k in jcs:
+                        d = st["vars"][k] - prev["vars"].get(k, 0)
+                        hooks_on = bool(st["hooks"].get("turn_end"))
+                        if k == mine and d != 1:
+                            out.append(fail(i, f"the chosen join block ran {d} times"))
+                        if k != mine and d != 0:
+                            out.append(fail(i, f"join block {k} ran although another choice was taken"))
+                if exp_sec is not None:
+                    exp_sec += 1
+                    # exactly the next section's choices are offered (no block choices, no other section's)
+                    for c in st["out"]["choices"]:
+                        if c["section"] != exp_sec or c["block"]:
+                            out.append(fail(i, f"after a join choice a choice of section {c['section']} (block={c['block']}) is offered in section {exp_sec}"))
+                            break
+                    if st["join"].get(pid, 0) != exp_sec:
+                        out.append(fail(i, f"join progress is {st['join'].get(pid, 0)}, expected {exp_sec}"))
+            else:
+                exp_sec = 0
+                # an ordinary choice (re-)enters a passage: the first section is shown
+                pid = resp["out"]["pid"]
+                for c in st["out"]["choices"]:
+                    if not c["block"] and c["section"] != 0:
+                        out.append(fail(i, f"entering {pid} shows a choice of section {c['section']}"))
+                        break
+                if st["join"].get(pid, 0) != 0:
+                    out.append(fail(i, f"entering {pid} leaves join progress at {st['join'].get(pid)}"))
+        elif name == "choose" and is_raise(resp) and not is_raise(resp, "IndexError"):
+            exp_sec = None
+        elif name not in READ_OPS and name != "choose":
+            exp_sec = None
+        prev = st
+    return out
+
+
+# ------------------------------------------------------------------------------------ C08
+
+def _top_jump(p):
+    return any(t.get("type") == "jump" for t in p.get("content", []))
+
+
+def _has_marker(p, pid):
+    return any(t.get("type") == "text" and t.get("value") == f"={pid}=" for t in p.get("content", []))
+
+
+def _jump_edges(story):
+    edges = {}
+    def walk(toks, acc):
+        for t in toks:
+            ty = t.get("type")
+            if ty == "jump":
+                acc.add(t.get("target"))
+            elif ty == "conditional":
+                for b in t.get("branches", []):
+                    walk(b.get("content", []), acc)
+            elif ty == "for_loop":
+                walk(t.get("content", []), acc)
+    for pid, p in story["passages"].items():
+        acc = set()
+        walk(p.get("content", []), acc)
+        edges[pid] = acc
+    return edges
+
+
+def _cycle_reachable(story, start):
+    edges = _jump_edges(story)
+    color = {}
+    def dfs(u):
+        color[u] = 1
+        for v in edges.get(u, ()):
+            if v not in edges:
+                continue
+            if color.get(v) == 1:
+                return True
+            if color.get(v) is None and dfs(v):
+                return True
+        color[u] = 2
+        return False
+    return dfs(start)
+
+
+def oracle_c08(case):
+    real = case["real"]
+    if real.get("status") != "ok":
+        return []
+    story = case["story"]
+    out = []
+    prev = real["init"]
+    for i, (op, step) in enumerate(zip(case["ops"], real["steps"])):
+        st, resp, name = step["state"], step["resp"], op["op"]
+        if is_raise(resp, "Timeout"):
+            out.append(fail(i, f"{name} did not terminate within the time limit"))
+        if name in NAV_OPS and is_raise(resp, "RuntimeError") and "Jump loop detected" in resp.get("msg", ""):
+            tgt = None
+            if name == "goto":
+                tgt = op["spec"].split("(")[0]
+            elif prev.get("out") and 0 <= op["i"] < len(prev["out"]["choices"]):
+                tgt = prev["out"]["choices"][op["i"]]["target"]
+            if tgt in story["passages"] and not _cycle_reachable(story, tgt):
+                out.append(fail(i, f"'Jump loop detected' reported from {tgt}, but no cyclic chain of jumps is reachable from it"))
+        if name in NAV_OPS and "out" in resp and not (name == "choose" and _is_join(prev, op)):
+            # text standing before a jump inside a block is kept
+            for k, v in st["vars"].items():
+                if k.startswith("bj_") and isinstance(v, int) and v == prev["vars"].get(k, 0) + 1:
+                    if f"={k}=" not in resp["out"]["content"]:
+                        out.append(fail(i, f"the line standing before block jump {k} was reached but its text is missing"))
+            content = resp["out"]["content"]
+            final = resp["out"]["pid"]
+            entered = [pid for pid, p in story["passages"].items() if not pid.startswith("H") and _entered(prev, st, pid)]
+            last_pos = -1
+            for pid in entered:
+                p = story["passages"][pid]
+                if not _has_marker(p, pid):
+                    continue
+                pos = content.find(f"={pid}=")
+                if pos < 0:
+                    cls = "C08-top-jump-drops-text" if _top_jump(p) else None
+                    out.append(fail(i, f"text of {pid}, a passage along the chain, is missing from the output", cls))
+                elif pid == final:
+                    last_pos = pos
+            # the final passage's text comes last
+            if last_pos >= 0:
+                for pid in entered:
+                    if pid != final and _has_marker(story["passages"][pid], pid):
+                        pos = content.find(f"={pid}=")
+                        if pos > last_pos:
+                            out.append(fail(i, f"text of {pid} appears after the final passage {final}"))
+            # the final passage's choices are the ones offered
+            if st["out"]["pid"] != final:
+                out.append(fail(i, "cached output names another passage"))
+        prev = st
+    return out
